@@ -25,6 +25,18 @@ MUTATORS = {'add', 'discard', 'remove', 'clear', 'pop', 'popleft', 'append', 'in
             'rotate', 'update', 'setdefault', 'appendleft', 'sort', 'reverse'}
 
 
+def assigned_names(body):
+    """Names the body rebinds (as opposed to containers it mutates in place)."""
+    s = set()
+    for st in body:
+        for n in ast.walk(st):
+            if isinstance(n, ast.Name) and isinstance(n.ctx, (ast.Store, ast.Del)):
+                s.add(n.id)
+            elif isinstance(n, ast.ExceptHandler) and n.name:
+                s.add(n.name)
+    return s
+
+
 def stored_names(body):
     """Locals a loop body may change: assigned names, and names of local
     containers mutated in place (x.add(..), x[k] = .., del x[k], x += ..)."""
@@ -154,6 +166,7 @@ def _invariant_loop(X, st, fr, ls, forinfo):
     fname = X.fn_name
     is_for = forinfo is not None
     body_names = stored_names(st.body)
+    rebound = assigned_names(st.body)
     if is_for:
         body_names |= stored_names([ast.Expr(st.target)]) | {
             n.id for n in ast.walk(st.target) if isinstance(n, ast.Name)}
@@ -254,6 +267,10 @@ def _invariant_loop(X, st, fr, ls, forinfo):
                 X.unsupported('cannot havoc local %s (%r): declare its type' % (name, v), st)
         if isinstance(v, Loc):
             continue
+        if isinstance(v, ZV) and is_usort(v.t.sort()) and name not in rebound:
+            # a reference to an object: x[k] = v / x.append(v) change the object (its fields
+            # are in the havoc list), not which object the name refers to
+            continue
         nv = X.fresh(T, 'lv_' + name)
         f.vars[name] = nv
         if isinstance(nv, ZV):
@@ -309,12 +326,27 @@ def _invariant_loop(X, st, fr, ls, forinfo):
     if ls.decreases:
         dec0 = X.num(spec.eval_spec(X, ls.decreases, env_for(idx), fr.module))
     heap_mid = dict(X.heap)
+    snap_head = X.snapshot() if ls.body_ensures else None
     try:
         X.run_block(st.body, fr)
     except _Continue:
         pass
     except _Break:
         return          # leaves the loop with the state at the break
+    # reachability of the end of the iteration (vacuity guard: must NOT be provable on at least
+    # one path through the body)
+    X.oblige('%s:loop%d.canary' % (fname, k), z3.BoolVal(False), kind='canary', role='aux',
+             assume_after=False, info={'loop': k})
+    if ls.body_ensures:
+        X.old_stack.append(snap_head)
+        try:
+            benv = env_for(idx)
+            benv.update(headvals)
+            for name, text, role in ls.body_ensures:
+                oblige_split(X, '%s:loop%d.iteration.%s' % (fname, k, name),
+                             spec.eval_bool(X, text, benv, fr.module), 'loop-iteration', role or 'prop')
+        finally:
+            X.old_stack.pop()
     # non-interference for live containers
     if live is not None and isinstance(deref(live), ListV) and \
             isinstance(deref(live).E, (TDict, TSet, TList)):
